@@ -258,6 +258,34 @@ PROPS['C09'] = dict(
 )
 PROPS['C01']['projections'].append(dict(name='mercreport', spec_index=3, n_quick=120, n_thorough=3000))
 
+BRANCH_NAMES['evmcodec'] = ['cases', 'verified', 'ok', 'err', 'panic']
+EVMCODEC_RULE = ("evmcodec: the three codecs in equal shares; channel options produced as JSON text (feed ids incl. zero, windows 0 / 2^31 / 2^32-1 / "
+                 "at the 32-bit expiry edge, base fees of either sign, zero, 1e40-scale, multipliers 10^k / negative / zero / hex, ABI type lists over "
+                 "all (u)int8..256 with nested two-element encoders and the bytes0 sentinel, malformed and unknown-field JSON), decoded by the real "
+                 "Decode methods; reports with observation seconds at 0 / 2^31 / 2^32 edges, validAfter before / at / after the timestamp, values "
+                 "aimed at each declared type's min-1..max+1 after multiplication with random fractional tails, fees at 2^192 and at exact rounding "
+                 "ties, nil / quote / timestamped / wrong-kind values, wrong value counts, specimen reports; six fixed witnesses (F3, F4, B3, D6). "
+                 "Distinct by SHA-1 of the input.")
+PROPS['C12'] = dict(
+    level='proof',
+    projections=[dict(name='evmcodec', spec_index=1, strict_index=2, n_quick=1500, n_thorough=40000)],
+    rule=EVMCODEC_RULE,
+    explanation="Theorems C12_* prove for every parsed option set and report that a successful encoding of the modelled premium-legacy, "
+                "ABI-encode-unpacked and streamlined codecs reads back, under an independent layout reader, as exactly the fields the property "
+                "names (feed id, validFrom, timestamp, round-half-up fees, expiresAt, truncated products in their declared integer types; "
+                "fee and truncation values are proved unique), that unfit fields make success impossible, that specimen reports are refused, "
+                "and that a panic can only come from the fee division in the F4 region. The statement without the F3/F4 hypotheses is refuted "
+                "by witnesses (C12_expiry_wraps_refuted, C12_fee_panics_refuted = the recorded findings). The model is compared byte for byte "
+                "with the Go codecs (real JSON option decoding) on every run and the same reader is evaluated on the Go output.",
+    assumptions=["report timestamps are uint64 (>= 0); feed ids are 32 bytes; channel options are taken after the real JSON decoding",
+                 "go-ethereum abi.Arguments.Pack of static words, shopspring/decimal Mul/DivRound/BigInt as modelled (compared on every run)"],
+    level_text="Coq theorems over the model of the three EVM report codecs, CalculateFee and ExtractTimestamps for all options and reports "
+               "(soundness against an independent ABI layout reader, failure when unfit, specimen refusal, panic only in F4); tied to the Go "
+               "codecs by byte-for-byte differential testing; F3 and F4 are recorded known findings with refutation witnesses.",
+    level_note="Trusted: Coq kernel + vm_compute; hand-written model; JSON decoding of channel options is performed by the real code in the "
+               "harness and not modelled; harness. Axioms: none.",
+)
+
 
 def load_known_findings(root):
     p = os.path.join(root, 'known_findings.jsonl')
